@@ -16,12 +16,12 @@ CHECKS.update({
  "C01": ("model_checking",
          "TLA+ spec of the lock-free mailbox at atomic-operation granularity (TLC: all interleavings, safety + liveness NoSpin); TLC-simulated behaviours replayed hook-by-hook on the real UnboundedMailbox under a controlled scheduler; recorded traces validated by TLC against the MailboxMon monitor",
          "Every interleaving of the modelled configurations (2-3 callers, Pause/Resume, handlers acting on their own mailbox, consumer re-election) is explored by TLC for the safety invariants and, under weak fairness, for termination (no spin). The spec is bound to the code: TLC-generated behaviours are stepped through the real mailbox at the hook points with the mailbox state compared after every step, larger random scenarios run under seeded fine-grained (uniform and PCT-style) schedules, and every recorded event trace is judged by the TLA+ monitor.",
-         "Queues are assumed linearisable FIFO (C02); sync/atomic is sequentially consistent; only the interleavings that were replayed/sampled bind the code, exhaustiveness holds for the model.",
+         "Queues are assumed linearisable FIFO (C02); sync/atomic is sequentially consistent - an operation that stops being atomic is outside the model and is looked for by an uninstrumented child process (one sender playing ping-pong with the handler per mailbox, two IsPaused pollers; a message not handled within 1 s is reported to MailboxMon); only the interleavings that were replayed/sampled bind the code, exhaustiveness holds for the model.",
          "§5 C01"),
  "C02": ("model_checking",
          "TLA+ spec of the ring buffer index arithmetic vs. a ghost FIFO (TLC, all words); every TLC-enumerated operation word replayed on the real RingQueue and judged by RingMon; mailbox ordering traces (controlled scheduler) judged by MailboxMon (SenderFIFO, SystemFirst)",
          "The ring algorithm is model-checked for all operation words up to 12/24 operations from every initial size 1..8; all words of the small configuration (tens of thousands) plus simulated and random long words around the real growth boundaries are executed on the real queue and their results validated by the monitor; per-sender FIFO and system-before-user are validated on fine-grained controlled executions of the real mailbox.",
-         "Kill and stash ordering are decided on actor-system traces (ActorSys part); ring operations are atomic under the queue mutex.",
+         "Kill and stash ordering are decided on actor-system traces (ActorSys part; Unstash batches of every size over stashes of 2-9 messages); ring operations are atomic under the queue mutex.",
          "§5 C02"),
  "C17": ("model_checking",
          "TLA+ transcription of MergeFromWithOptions model-checked over all reachable view triples (TLC); monitor CVMon (TLC) evaluates the merge laws on result tables produced by the real ClusterView for every ordered pair of a TLC-generated well-formed view domain",
@@ -30,7 +30,7 @@ CHECKS.update({
          "§5 C17"),
  "C07": ("model_checking",
          "TLA+ spec of Start/Stop/context-cancel at hook granularity (TLC: all interleavings of 1-3 callers, safety + liveness NeverHangs); TLC behaviours replayed on a real actor.System through hooks at the lock/kill/wait points; call/return traces and final observations validated by TLC against LifeMon",
-         "TLC explores every interleaving of the caller scripts, the guardian goroutine and the root's termination for five script families and checks start-once, stop-once, clean shutdown, lock release and (under fairness) that every call returns. Every behaviour of the small families and simulated behaviours of the larger ones are replayed step by step on a real system with a small actor tree (some with remoting); the monitor judges results against the state machine, hangs, registered actors and leftover library goroutines after Stop/cancel.",
+         "TLC explores every interleaving of the caller scripts, the guardian goroutine and the root's termination for five script families and checks start-once, stop-once, clean shutdown, lock release and (under fairness) that every call returns. Every behaviour of the small families and simulated behaviours of the larger ones are replayed step by step on a real system with a small actor tree (some with remoting); the monitor judges results against the state machine, hangs, registered actors and leftover library goroutines after Stop/cancel; a Stop that comes before Start is rejected and must leave the system fully usable (families F, G: the started system keeps its actors and delivers a scheduled job).",
          "The actor tree of the scenarios terminates when poison-killed (C06); a call that does not reach its next hook within 4 s is a hang; goroutine attribution uses stack frames of the library and go-quartz.",
          "§5 C07"),
  "C03": ("model_checking",
@@ -65,7 +65,7 @@ CHECKS.update({
          "§5 ActorSys / C19"),
  "C04": ("model_checking",
          "TLA+ spec of one Ask (Future.close / PipeTo / Result and the registration in Context.ask) at hook granularity, TLC: all interleavings of repliers, timer, asker death, PipeTo and Result callers (safety + termination); TLC behaviours replayed on a real Ask through hooks in future.go/context.go; second TLA+ spec Registry (all Asks of one asker: creation, registration, compensation, timers, death scan, restart turned into termination; TLC exhaustive, two refuted variants); ungated asker-life scenarios; traces validated by TLC against AskMon and AskLifeMon",
-         "Every interleaving of three completer threads, one or two PipeTo callers and one or two Result callers with the three steps of ask() is explored by TLC for: single completion, every waiter/forwarder sees that completion's value exactly once, no registration left, everybody terminates. Simulated behaviours and random thread sets (time-outs 0.1-20 ms) are replayed on a real future created by the real Context.ask with a real timer and real forwarder actors; AskMon judges values, exactly-once forwarding, own-reply-only, time-out not early, waiters released and registry emptiness. Registry.tla is checked for: a dead asker leaves no pending Ask, a completed future is not registered, an open future is registered; on the code an asker makes 2-5 Asks with time-outs from 1 ns to seconds (with a delay injected before registration) and then ends in one of six ways (kill, poison kill, failure+Stop, failure+Restart with a kill during or after the restart, parent's termination); AskLifeMon requires every Ask to be complete at the latest 1.5 s after the asker's termination, no registration left, own reply only, time-out not early, death only once the asker is being ended.",
+         "Every interleaving of three completer threads, one or two PipeTo callers and one or two Result callers with the three steps of ask() is explored by TLC for: single completion, every waiter/forwarder sees that completion's value exactly once, no registration left, everybody terminates. Simulated behaviours and random thread sets (time-outs 0.1-20 ms) are replayed on a real future created by the real Context.ask with a real timer and real forwarder actors; AskMon judges values, exactly-once forwarding, own-reply-only, time-out not early, waiters released and registry emptiness. Registry.tla is checked for: a dead asker leaves no pending Ask, a completed future is not registered, an open future is registered; on the code an asker makes 2-5 Asks with time-outs from 1 ns to seconds (with a delay injected before registration) and then ends in one of six ways (kill, poison kill, failure+Stop, failure+Restart with a kill during or after the restart, parent's termination); Asks are also made from the asker's OnKill handler; AskLifeMon requires every Ask to send its request and to be complete at the latest 1.5 s after the asker's termination, no registration left, own reply only, time-out not early, death only once the asker is being ended.",
          "Critical sections under Future.mu and futureLock are atomic; real timer (one-sided time check); the gated scenarios have one Ask each; several Asks of one asker are covered by Registry.tla and the ungated asker-life scenarios (real time: 1.5 s grace against 4 s time-outs).",
          "§5 C04"),
  "C11": ("model_checking",
@@ -95,17 +95,17 @@ CHECKS.update({
          "§5 C13"),
  "C20": ("model_checking",
          "TLA+ spec Sched (shared timer queue keyed by a derived job key, per-actor reference table, Once/Loop/invalid Cron/Cancel/Clear/Kill/Restart/Fire/Tick on a discrete clock), TLC exhaustive; TLC-simulated behaviours replayed on real actor systems in real time (one clock value = 100 ms); timestamped traces validated by TLC against SchedMon",
-         "TLC checks that queued jobs always belong to a live owner in the incarnation that scheduled them, that keys are unique and denote one (owner, reference), that firings are on time, that Cancel answers not-found exactly for unknown references and that an API call on one actor never changes another actor's jobs - for the key derivation of record, and (self-test) shows the concatenated key violating them. Simulated behaviours (two families: plain names, names and references containing ':'; re-use of a reference after Cancel/Clear, and on top of a live loop job where the call is a no-op; cron jobs; an unreachable remote receiver next to local jobs) are executed by scripted actors under a restarting supervisor; a hook marks the start of every firing. SchedMon: not before the n-th instant, once fires/delivers once, nothing fires/arrives after cancel / clear / death / restart (beyond a grace for a firing already under way), invalid Cron is a parse error and schedules nothing, Cancel answers, dead letter only for a dead receiver, original value, delivery to the named receiver, and lower bounds (what was due while the job lived has arrived).",
+         "TLC checks that queued jobs always belong to a live owner in the incarnation that scheduled them, that keys are unique and denote one (owner, reference), that firings are on time, that Cancel answers not-found exactly for unknown references and that an API call on one actor never changes another actor's jobs - for the key derivation of record, and (self-test) shows the concatenated key violating them. Simulated behaviours (two families: plain names, names and references containing ':'; re-use of a reference after Cancel/Clear, and on top of a live loop job where the call is a no-op; cron jobs; an unreachable remote receiver next to local jobs) are executed by scripted actors under a restarting supervisor; a hook marks the start of every firing. SchedMon: not before the n-th instant, once fires/delivers once, nothing fires/arrives after cancel / clear / death / restart (beyond a grace for a firing already under way), invalid Cron is a parse error and schedules nothing, Cancel answers, dead letter only for a dead receiver, original value, delivery to the named receiver, and lower bounds (what was due while the job lived has arrived). In a third of the behaviours every actor arms a job while it handles its own OnKilled (termination and restart): it must never fire.",
          "Real time: go-quartz (third party) owns the clock; a run is judged only if a canary timer was never more than 25 ms late; grace 35 ms (firing hook) / 150 ms (delivery), slack 45 ms for lower bounds, so a cancellation within a few milliseconds of the firing instant is tolerated either way.",
          "§5 C20"),
  "C18": ("model_checking",
-         "TLA+ spec Gossip (one action per message handled by NodeActor: launch/bootstrap, join as an atomic Ask exchange, gossip delivery with merge and re-broadcast, gossip tick, the suppression rule, FIFO channel per node pair, crash/restart/leave/cut/lose), TLC exhaustive for 3 nodes incl. liveness; TLC-simulated behaviours replayed step by step on real NodeActor objects in a deterministic simulator with state comparison after every step; random scenarios on 4-7 nodes and directed families (isolated during join, restart then late joiners, partitioned seeds, self-seeded islands with a bridge node, failure detection on); traces validated by TLC against ConvergeMon",
+         "TLA+ spec Gossip (one action per message handled by NodeActor: launch/bootstrap, join as an atomic Ask exchange, gossip delivery with merge and re-broadcast - also at nodes that are still joining, gossip tick, the suppression rule, FIFO channel per node pair, crash/restart/leave/cut/lose), TLC exhaustive for 3 nodes incl. liveness; TLC-simulated behaviours replayed step by step on real NodeActor objects in a deterministic simulator with state comparison after every step; random scenarios on 4-7 nodes and directed families (isolated during join, restart then late joiners, restart whose first join attempt fails while gossip arrives, partitioned seeds, self-seeded islands with a bridge node, failure detection on); traces validated by TLC against ConvergeMon",
          "TLC checks, for all launch orders and delivery interleavings of 3 nodes with one or two seeds, that whenever nothing is in flight and nobody would send, all running nodes hold the same members in the same incarnations, computed and announced the same leader, and exactly one considers itself leader; and (liveness, weak fairness on deliveries, ticks and join retries) that this is eventually reached for good. With one fault the model itself shows that a crashed member is never removed (recorded finding). The simulator runs the real NodeActor code against a mock actor context (messages through the real wire codec); 2,451 replayed model steps agree with the code state-for-state (members, incarnations, version vectors, announced leader). ConvergeMon on the final fixpoint (three rounds of all deliveries and timers changing nothing): EventuallyStable, SameMembers, SameLeader, LeaderAnnounced, ExactlyOneLeader, JoinedNodeKnownToAll, NewestIncarnationEverywhere, NoShadowIncarnation, CrashedNodeAbsent, LeftNodeAbsent, OnlyRunningNodes, and nothing changes or is announced in five further rounds.",
          "The simulator replaces mailbox, remoting and scheduler by a deterministic driver (one OnReceive at a time, FIFO per pair, Ask answered inside the caller's turn). Failure detection reads the wall clock: simulated with a 30 ms time-out in a few healthy-cluster scenarios. KNOWN FINDINGS KF-C18-1..4 (crashed / left members never removed, fresh NodeID shadows the old incarnation, failure detection removes live members for ever).",
          "§5 C18"),
  "C10": ("other",
          "TLA+ spec Confine (threads x children tables x protection, two-step accesses), TLC exhaustive; lockset discipline (Eraser) decided by the TLA+ monitor ConfineMon on accesses recorded through hooks; ungated stress of the documented-concurrent API in a child process with process-survival and tree-consistency oracles in ConfineMon; race-detector build as observer (thorough)",
-         "TLC checks on Confine that no two threads are ever inside conflicting accesses to a children table (external System.ActorOf under actorOfLock, the root's own turn on child death / stop, ordinary actors in their own turn) and shows the race for the variant without the root-turn lock. On the code, every access to a children table is recorded with goroutine, executing turn and held locks; ConfineMon applies the lockset state machine, which flags an unprotected shared table without the racy interleaving having to occur. The stress runs ActorOf, Kill, Tell, Ask, FindActor, Future.Close and event-stream calls from 9 goroutines against failing and restarting actors; ConfineMon requires the process to survive (a Go fatal error is a violation) and, at quiescence, every registered actor to be listed by its parent and no table to hold an unregistered path. Thorough: the same stress built with -race; each distinct library function pair in a report is a violation.",
+         "TLC checks on Confine that no two threads are ever inside conflicting accesses to a children table (external System.ActorOf under actorOfLock, the root's own turn on child death / stop, ordinary actors in their own turn) and shows the race for the variant without the root-turn lock. On the code, every access to a children table is recorded with goroutine, executing turn and held locks; ConfineMon applies the lockset state machine, which flags an unprotected shared table without the racy interleaving having to occur. The stress runs ActorOf (named and unnamed, also from inside actors), Kill, Tell, Ask, FindActor, Future.Close and event-stream calls from 9 goroutines against failing, restarting and terminating actors that are all subscribers of the stream; ConfineMon requires the process to survive (a Go fatal error is a violation) and, at quiescence, every registered actor to be listed by its parent and no table to hold an unregistered path. Thorough: the same stress built with -race; each distinct library function pair in a report is a violation.",
          "Level 'other': the specification cannot see memory; races on memory the runs never touch are not decided. The race detector is part of the trusted base of the thorough tier. Hooks cover the children tables only (the other shared structures are lock- or sync.Map-protected and are exercised by the stress).",
          "§5 C10"),
 })
